@@ -11,6 +11,7 @@ import z3
 from fsic.core.linkers import BaseLinker
 from fsic.core.models import BaseModel
 from fsic.exceptions import NonConvergenceError
+from pyvc import roles as R
 from pyvc import values as V
 from pyvc.contracts import Call, FunctionContract, LoopSpec
 from pyvc.ctx import OutOfSubset
@@ -74,7 +75,7 @@ class LinkerSolveT(FunctionContract):
         e['inputs'] = {'n': n, 't': t, 'min_iter': e['min_iter'], 'max_iter': e['max_iter'], 'offset': e['offset'], 'tol': e['tol'],
                        'failures': e['failures']}
         self._install(interp, e)
-        interp.registry.set_loops(self.qualname, {1: self._loop(e)})
+        interp.registry.set_loops(self.qualname, {R.body_calls('evaluate_t'): self._loop(e)})
         kw = dict(min_iter=SInt(e['min_iter']), max_iter=SInt(e['max_iter']), tol=SFloat(e['tol']), offset=SInt(e['offset']),
                   failures=SStr(e['failures']), errors=SStr(e['errors']), catch_first_error=SBool(e['cfe']))
         if selection is not None:
@@ -193,13 +194,13 @@ class LinkerSolveT(FunctionContract):
                    ('hooks_so_far', z3.And(g['before_calls'] == 1, g['after_calls'] == 0)),
                    ('linker_bookkeeping_untouched', z3.And(members['_'].status.arr == members['_'].status0,
                                                            members['_'].iterations.arr == members['_'].iter0))]
-            cv = fr.locals.get('current_values')
+            cv = fr.locals.get(R.assigned_from_call(fr.fi.node, 'get_check_values', 'current_values'))
             ok = isinstance(cv, dict) and list(cv.keys()) == e['judged'] and all(isinstance(cv[x], SArr) for x in cv)
             out.append(('current_values_has_one_vector_per_judged_member', z3.BoolVal(ok)))
             if ok:
                 for x in e['judged']:
                     out.append((f'current_values[{x}]_is_last_check_vector', z3.And(cv[x].length == members[x].nc, cv[x].arr == z3.Select(e['Hf'][x], p))))
-            st = fr.locals.get('status')
+            st = fr.locals.get(R.stored_into_self_series(fr.fi.node, 'status', 'status'))
             out.append(('status_local_unsolved', V.z3_of(st) == S('-') if st is not None else z3.BoolVal(False)))
             nt = e['nt']
             for x in e['ids']:
